@@ -113,6 +113,12 @@ def gen_pipeline(scratch, gen_dir):
         out.append(f"/-- keys of the reserved-name table of the {lang} back end (go/ast) -/")
         out.append(f"def reserved_{lang} : List String := [" + ", ".join(json.dumps(w) for w in rsv.get(lang, [])) + "]")
         out.append("")
+    # type names: the reserved table plus the names the generated code declares itself next to the model's types (`reservedTypeNames`)
+    rsv["cpp_types"] = sorted(set(rsv.get("cpp", [])) | set(rsv.get("cpp_types_only") or []))
+    rsv.pop("cpp_types_only", None)
+    out.append("/-- names escaped when they name a C++ type: `reservedNames` and `reservedTypeNames` (go/ast) -/")
+    out.append("def reserved_cpp_types : List String := [" + ", ".join(json.dumps(w) for w in rsv["cpp_types"]) + "]")
+    out.append("")
     vis = facts(scratch, "visitor")
     out.append("/-- every field of a dsl node struct that can hold child nodes: (struct, field, is it walked by VisitChildren) -/")
     out.append("def visitorFields : List (String × String × Bool) := [")
